@@ -96,7 +96,10 @@ class Tokenizer:
                     if paren_level[-1] == opener:
                         paren_level.pop()
                     else:
-                        raise SyntaxError(f"Unmatched closing paren {tok.string} at {tok.start}")
+                        raise SyntaxError(
+                            f"Unmatched closing paren {tok.string}",
+                            (self._path or "<unknown>", tok.start[0], tok.start[1] + 1, tok.line, tok.end[0], tok.end[1] + 1),
+                        )
             else:
                 if tok.is_exact_type(")"):
                     self._stack.append(tok)
